@@ -45,6 +45,7 @@ static void op_pubkey_combine(void) {
     size_t l; unsigned char *a = A_blob(0, &l); size_t n = (size_t)A_u64(1); unsigned char *out = O_buf(PK); int r; void **pp;
     if (g_bad) return; if (l != n * PK) { bad("size", 0); return; }
     pp = ptr_array(a, n, PK);
+    if (g_alias && n >= 1) out = (unsigned char *)pp[n - 1];      /* accumulate into one of the inputs */
     CALL(r = secp256k1_ec_pubkey_combine(ctx, (secp256k1_pubkey *)out, (const secp256k1_pubkey * const *)pp, n)); R_int(r); R_hex(out, PK);
 }
 /* pubkey_sort concat(pks) n -> ret, permutation (indices into the input) */
@@ -57,7 +58,9 @@ static void op_pubkey_sort(void) {
 }
 static void op_tagged_sha256(void) {
     size_t tl, ml; unsigned char *t = A_blob(0, &tl), *m = A_blob(1, &ml), *out = O_buf(32); int r;
-    if (g_bad) return; CALL(r = secp256k1_tagged_sha256(ctx, out, t, tl, m, ml)); R_int(r); R_hex(out, 32);
+    if (g_bad) return;
+    if (g_alias && ml >= 32) out = m;        /* hash32 overwrites the start of the message buffer */
+    CALL(r = secp256k1_tagged_sha256(ctx, out, t, tl, m, ml)); R_int(r); R_hex(out, 32);
 }
 
 /* ---- ECDSA */
@@ -76,7 +79,9 @@ static void op_sig_serialize_der(void) {
 /* sig_normalize sig want_out -> ret out */
 static void op_sig_normalize(void) {
     unsigned char *s = A_fix(0, SIG, 0); long want = A_int(1); unsigned char *out = want ? O_buf(SIG) : NULL; int r;
-    if (g_bad) return; CALL(r = secp256k1_ecdsa_signature_normalize(ctx, (secp256k1_ecdsa_signature *)out, (secp256k1_ecdsa_signature *)s)); R_int(r); R_hex(out, SIG);
+    if (g_bad) return;
+    if (g_alias && want) out = s;            /* "sigout ... can be identical to sigin" */
+    CALL(r = secp256k1_ecdsa_signature_normalize(ctx, (secp256k1_ecdsa_signature *)out, (secp256k1_ecdsa_signature *)s)); R_int(r); R_hex(out, SIG);
 }
 static void op_ecdsa_verify(void) { unsigned char *s = A_fix(0, SIG, 0), *m = A_fix(1, 32, 0), *pk = A_fix(2, PK, 0); int r; if (g_bad) return; CALL(r = secp256k1_ecdsa_verify(ctx, (secp256k1_ecdsa_signature *)s, m, (secp256k1_pubkey *)pk)); R_int(r); }
 /* ecdsa_sign msg sk mode ndata|script -> ret sig calls ; mode 0: noncefp NULL, 1: rfc6979 explicit, 2: scripted, 3: nonce_function_default */
